@@ -68,6 +68,9 @@ def replay(module, walks_path, out_path, threads=16, timeout=3600):
     return [json.loads(l) for l in open(out_path)]
 
 
+AUTH_GUARDS = {'named_auth', 'gas_auth', 'role_auth', 'operator_auth', 'collector_auth', 'upgrade_auth', 'migrate_auth'}
+
+
 def owned_field(field, prefixes):
     return any(field == p or field.startswith(p + '.') or p == '*' for p in prefixes)
 
@@ -86,6 +89,12 @@ def classify(div, policy):
         if div['code_ok'] and not div['spec_ok']:
             if fails & og or '*' in og:
                 return 'violation', 'accepted although guard(s) %s fail' % sorted(fails & og or fails)
+            # WHO may make a call is owned by the properties about authorisation (C06, C07, and the properties that name
+            # an authoriser themselves); a call that goes through without the authorisation it needs does what the
+            # authorised call does, which this property checks on the authorised edges.  An unauthorised call that went
+            # through is therefore not this property's finding merely because it moved fields this property owns.
+            if fails and fails <= AUTH_GUARDS:
+                return 'foreign', 'accepted although authorisation guard(s) %s fail (owned by the authorisation properties)' % sorted(fails)
             # composed instances: the refusal belongs wholly to the contract in FRONT of this property's contract (its
             # guards are another property's); what reaches this property's contract is then a well-formed call
             if fails and fails <= set(policy.get('upstream_guards', [])):
@@ -174,8 +183,15 @@ def load_known():
     return json.load(open(p)) if os.path.exists(p) else []
 
 
+_REPLAYS_WRITTEN = []
+
+
 def write_replay_file(prop, tier, seed, module, inst, walk, result, verdict, reason):
     os.makedirs(os.path.join(ROOT, 'replays'), exist_ok=True)
+    # a broken tree can yield thousands of violating walks: all are counted, the first 40 of a run get a replay file
+    # (later ones point at the last file written, which shows the same kind of step)
+    if len(_REPLAYS_WRITTEN) >= 40:
+        return _REPLAYS_WRITTEN[-1]
     div = result['divergence']
     step = div.get('step', 0)
     body = {'property': prop, 'tier': tier, 'seed': seed, 'module': module, 'inst': inst,
@@ -185,6 +201,7 @@ def write_replay_file(prop, tier, seed, module, inst, walk, result, verdict, rea
     path = os.path.join(ROOT, 'replays', '%s-%s.json' % (prop, h))
     with open(path, 'w') as f:
         json.dump(body, f, indent=1)
+    _REPLAYS_WRITTEN.append(path)
     return path
 
 
@@ -422,10 +439,28 @@ def trace_job(prop, tier, seed, job, policy, known, acc):
         for k in known:
             if k.get('status') == 'known' and k.get('property') == prop and k.get('deviation') == dv:
                 acc['known'].setdefault(k['id'], k)
-    for r in res:
+    # run boundaries: a walk of the graph stops at its first divergence; a recorded run goes on, and after a divergence
+    # that is NOT this property's (a foreign or open outcome: the specification's state and the contract's are no longer
+    # the same) later lines of the same run differ as a consequence.  Those follow-on differences are not findings.
+    resets = []
+    for i, l_ in enumerate(open(trace), 1):
+        if '"reset"' in l_:
+            try:
+                if json.loads(l_).get('reset') is True:
+                    resets.append(i)
+            except ValueError:
+                pass
+    import bisect
+    tainted = {}
+    for r in sorted(res, key=lambda x: x.get('l', 0)):
         div = dict(r)
+        run_ = bisect.bisect_right(resets, r.get('l', 0))
         if div['kind']:
             verdict, reason = classify(div, policy)
+            if verdict == 'violation' and run_ in tainted and div['kind'] in ('state', 'events', 'ret', 'frame', 'frame_events', 'invariant'):
+                verdict, reason = 'foreign', 'follow-on of the divergence at line %d of the same run (%s)' % tainted[run_]
+            elif verdict in ('foreign', 'drift') and div['kind'] in ('outcome', 'state') and run_ not in tainted:
+                tainted[run_] = (r.get('l', 0), reason[:80])
         else:
             verdict, reason = 'foreign', 'line matches'
         if r.get('dev') and r['dev'] != 'none' and not div['kind']:
@@ -453,7 +488,11 @@ def trace_job(prop, tier, seed, job, policy, known, acc):
             os.makedirs(os.path.join(ROOT, 'replays'), exist_ok=True)
             h = hashlib.sha1(json.dumps(body, sort_keys=True).encode()).hexdigest()[:12]
             path = os.path.join(ROOT, 'replays', '%s-trace-%s.json' % (prop, h))
-            json.dump(body, open(path, 'w'), indent=1)
+            if len(_REPLAYS_WRITTEN) < 40:
+                json.dump(body, open(path, 'w'), indent=1)
+                _REPLAYS_WRITTEN.append(path)
+            else:
+                path = _REPLAYS_WRITTEN[-1]
             acc['violations'].append({'replay': path, 'reason': reason, 'spec': job['spec'], 'act': r.get('act')})
         elif verdict == 'drift':
             acc['drift'].append({'spec': job['spec'], 'act': r.get('act'), 'reason': reason})
@@ -506,7 +545,11 @@ def codec_job(prop, tier, seed, job, policy, known, acc):
         os.makedirs(os.path.join(ROOT, 'replays'), exist_ok=True)
         h = hashlib.sha1(json.dumps(body, sort_keys=True).encode()).hexdigest()[:12]
         path = os.path.join(ROOT, 'replays', '%s-codec-%s.json' % (prop, h))
-        json.dump(body, open(path, 'w'), indent=1)
+        if len(_REPLAYS_WRITTEN) < 40:
+            json.dump(body, open(path, 'w'), indent=1)
+            _REPLAYS_WRITTEN.append(path)
+        else:
+            path = _REPLAYS_WRITTEN[-1]
         acc['violations'].append({'replay': path, 'reason': 'codec case disagrees with Abi.tla: ' + r['kind'], 'spec': job['spec'], 'act': {'op': r.get('op')}})
     kinds = {}
     sample = []
@@ -531,7 +574,7 @@ def apalache_job(prop, tier, seed, job, policy, known, acc):
     os.makedirs(outdir, exist_ok=True)
     runs = [('base', ['--init=Init', '--inv=' + job['inv'], '--length=0'], 'NoError'),
             ('step', ['--init=IndInit', '--inv=' + job['inv'], '--length=1'], 'NoError'),
-            ('non_vacuous', ['--init=IndInit', '--inv=' + job['refute'], '--length=1'], 'Error')]
+            ('non_vacuous', ['--init=' + job.get('refute_init', 'IndInit'), '--inv=' + job['refute'], '--length=1'], 'Error')]
     res = {}
     t = time.time()
     for name, args, want in runs:
